@@ -131,16 +131,21 @@ Section First.
   Lemma write_ends_semi : forall t, exists b, write fmt t = b ++ ";".
   Proof. intros t. unfold write. eexists. rewrite <- app_assoc_s. reflexivity. Qed.
 
-  (** a file whose first line is the text of a tree inside C01's quantifier, followed by a
-      line break and anything: ReadTreeReader (the parser on the whole file) and the first
-      record of ReadMultiTrees deliver the same tree *)
-  Theorem newick_first_is_head : forall t lines rest,
+  (** a file whose first line is the text of a tree inside C01's quantifier, followed by anything: ReadTreeReader and the
+      first record of ReadMultiTrees deliver that tree.  (The agreement of the two readers itself needs no hypothesis on
+      the layout any more: Proofs/MultiTree.v, first_tree_is_head.) *)
+  Theorem newick_first_is_head : forall t lines,
       wfN numeric numok t = true ->
-      first_tree_newick np_nw (write fmt t ++ String "010" rest) = inl (canon_root t) /\
+      first_tree_newick np_nw (whole_lines (write fmt t :: lines)) = inl (canon_root t) /\
       head_multi (read_multi np_nw (whole_lines (write fmt t :: lines))) = Some (ITree 0 (canon_root t)).
   Proof.
-    intros t lines rest Hwf. split.
-    - unfold first_tree_newick, np_nw. rewrite (parse_write_k t _ Hwf). reflexivity.
+    intros t lines Hwf. split.
+    - destruct (write_ends_semi t) as [b Hb].
+      assert (E : ends_semi (write fmt t) = true).
+      { rewrite Hb. apply (ends_semi_true b ""). reflexivity. }
+      pose proof (rus_lines (write fmt t :: lines)) as R. cbn [first_close append] in R. rewrite E in R.
+      unfold first_tree_newick. rewrite R. unfold np_nw.
+      rewrite (parse_write fmt numeric parse_num numok SC t Hwf). reflexivity.
     - rewrite read_multi_lines. cbn [split_lines append].
       destruct (write_ends_semi t) as [b Hb].
       assert (E : ends_semi (write fmt t) = true).
